@@ -2,6 +2,7 @@ package vuego
 
 import (
 	"fmt"
+	"slices"
 	"strings"
 
 	"golang.org/x/net/html"
@@ -40,13 +41,16 @@ func parseFor(s string) ([]string, string, error) {
 // propagateTemplateAttributes recursively finds template elements with bound attributes
 // and propagates their evaluated values from the current scope to the parent scope.
 // This allows stateful attributes like :printed="printed+1" to persist across loop iterations.
-func (v *Vue) propagateTemplateAttributes(ctx VueContext, node *html.Node) {
+// The bound attributes of an include are the component's props, not assignments,
+// and the loop's own variables (loopVars) live in the iteration only: neither is
+// carried out of the loop.
+func (v *Vue) propagateTemplateAttributes(ctx VueContext, node *html.Node, loopVars []string) {
 	if node == nil {
 		return
 	}
 
 	// If this node is a template, propagate its bound attributes
-	if node.Type == html.ElementNode && node.Data == "template" {
+	if node.Type == html.ElementNode && node.Data == "template" && !helpers.HasAttr(node, "include") {
 		for _, attr := range node.Attr {
 			boundName := attr.Key
 			if strings.HasPrefix(boundName, ":") {
@@ -54,6 +58,9 @@ func (v *Vue) propagateTemplateAttributes(ctx VueContext, node *html.Node) {
 			} else if strings.HasPrefix(boundName, "v-bind:") {
 				boundName = boundName[7:]
 			} else {
+				continue
+			}
+			if slices.Contains(loopVars, boundName) {
 				continue
 			}
 			// Get the value that was set in the current scope and propagate to parent
@@ -70,7 +77,7 @@ func (v *Vue) propagateTemplateAttributes(ctx VueContext, node *html.Node) {
 
 	// Recursively check children for template elements
 	for child := node.FirstChild; child != nil; child = child.NextSibling {
-		v.propagateTemplateAttributes(ctx, child)
+		v.propagateTemplateAttributes(ctx, child, loopVars)
 	}
 }
 
@@ -150,7 +157,7 @@ func (v *Vue) evalFor(ctx VueContext, node *html.Node, expr string, depth int) (
 
 		// After evaluation, propagate bound attributes from template back to parent scope
 		// This allows stateful attributes like :printed="printed+1" to persist across iterations
-		v.propagateTemplateAttributes(ctx, iterNode)
+		v.propagateTemplateAttributes(ctx, iterNode, vars)
 
 		ctx.stack.Pop()
 		result = append(result, evaluated...)
